@@ -935,6 +935,29 @@ func runAddons() {
 			addonCase(l, &c)
 		}
 	})
+	// the MAIN symbol varies: GS1 prefixes with a meaning of their own (977 serials, 978/979 books,
+	// 02 / 2x in-store, 471, 00 = UPC-A range) - what is read of the add-on must not depend on them
+	var prefixMains []string
+	for _, body := range []string{"977123456700", "978123456789", "979012345678", "021234567890", "211234567890", "471234567890", "001234567890"} {
+		prefixMains = append(prefixMains, body+dig(ref.Mod10Check(body), 1))
+	}
+	sweep(fmt.Sprintf("EAN-5 and EAN-2 add-ons after %d EAN-13 main symbols with special GS1 prefixes (977, 978, 979, 02, 21, 471, 00): EAN-5 values v = 41*i (2440 values) with their natural parity and with one wrong parity, all 100 EAN-2 values, row level", len(prefixMains)), 2440, 61, func(l *mc.Local, i int) {
+		v := dig(41*i, 5)
+		row := ref.AddOn5Parity(v)
+		wrong := []byte(row)
+		wrong[i%5] ^= 'L' ^ 'G'
+		for _, m := range prefixMains {
+			for _, par := range []string{row, string(wrong)} {
+				c := fcase{Kind: "addon5", Num: m, Addon: v, Parity: par, Reader: "ean13", Scale: 1, Path: "row"}
+				addonCase(l, &c)
+			}
+			if i < 100 {
+				n := i % 4
+				c := fcase{Kind: "addon2", Num: m, Addon: dig(i, 2), Parity: string([]byte{"LG"[n>>1&1], "LG"[n&1]}), Reader: "ean13", Scale: 1, Path: "row"}
+				addonCase(l, &c)
+			}
+		}
+	})
 	sweep("EAN-5 add-on after a UPC-A, image path scale 2: 200 values (v = 499*i+7) x all 32 parity patterns", 200, 5, func(l *mc.Local, i int) {
 		v := dig((499*i+7)%100000, 5)
 		for p := 0; p < 32; p++ {
